@@ -135,7 +135,10 @@ Lemma gap_of_number_ws : forall n, ws (gap_of (VNum n)).
 Proof.
   intros n. unfold gap_of, ws.
   assert (R : forall k, forallb is_ws (repeat 32 k) = true) by (induction k; simpl; auto).
-  destruct n; try reflexivity; try apply R. destruct neg; [reflexivity | apply R].
+  destruct n; try reflexivity; try apply R.
+  - destruct neg; [reflexivity | apply R].
+  - destruct (Verif.Base.F64.trunc_Z (f64_of_bits b)); [apply R|].
+    destruct (Verif.Base.F64.is_inf (f64_of_bits b) && negb (Verif.Base.F64.sign_bit (f64_of_bits b))); apply R.
 Qed.
 
 (* Object.MarshalJSON agrees with JSON.stringify wherever stringify produces a text or throws *)
